@@ -10,8 +10,8 @@ func init() {
 		Technique:   "stateful property-based testing (rapid) against a reference lifecycle model, raw wire peer",
 		DesignRef:   "DESIGN.md section 3, C06",
 		Runs: []run{
-			{Test: "TestC06_Lifecycle", Quick: 3000, Thorough: 40000},
-			{Test: "TestC06_HTTP", Quick: 1500, Thorough: 15000, Shards: 4},
+			{Test: "TestC06_Lifecycle", Quick: 3000, Thorough: 120000},
+			{Test: "TestC06_HTTP", Quick: 1500, Thorough: 45000, Shards: 4},
 		},
 	})
 }
